@@ -124,7 +124,7 @@ Definition usec_of (f : option text) : Z :=
 (** datetime(...) / time(...) constructors: ValueError on invalid fields *)
 Definition mk_datetime (d : date) (h m x u : Z) (o : option Z) : out datetime :=
   let v := mkdt d (mktod h m x u) o in
-  if valid_datetime v then Ok v else Crash ValueError.
+  if valid_datetime v then Ok v else VFault.   (* except ValueError -> ValidationError (repo fix: out-of-range fields) *)
 
 (** tz_hr * 60 + tz_min with the sign of the hour group applied to the minutes as well
     (int('-04') * 60 - 49); for '-00:30' the hour group is -0 and only the sign
@@ -166,7 +166,7 @@ Definition time_from_unicode (s : text) : out tod :=
   | None => VFault
   | Some (h, m, x, f, _) =>
       let t := mktod h m x (usec_of f) in
-      if valid_tod t then Ok t else Crash ValueError
+      if valid_tod t then Ok t else VFault
   end.
 
 (** time.strptime(s, '%Y-%m-%d'): \d{4}-(1[0-2]|0[1-9]|[1-9])-(3[01]|[12]\d|0[1-9]|[1-9]| [1-9]),
@@ -212,7 +212,7 @@ Definition date_from_unicode (s : text) : out date :=
   | Some d => Ok d
   | None =>
       match scan_date_tz s with
-      | Some d => if valid_date d then Ok d else Crash ValueError
+      | Some d => if valid_date d then Ok d else VFault
       | None => VFault
       end
   end.
